@@ -95,6 +95,11 @@ CHECKS = {
    "1232 transitions: 16 SQL entry points (HTTP SQL POST/GET, adaptive-indexing node, Flight get_flight_info / do_get / prepared statements / execute_batches, query_stream, query_stream_filtered, the 7 QueryEngine methods that take SQL) x 75 statements (one or more per statement kind DataFusion 44 plans; COPY targets: fresh path, existing chunk, catalog object, directories, file:// URL, local path, unregistered scheme) + 32 hostile/benign Prometheus requests; two initial states (cold, warm); quick depth 1, thorough depth 2 plus all ordered pairs; invariant: image unchanged, no mutating request reaches the store handles, every write-like statement gets an error from every executing entry point. A self-test hands every statement to DataFusion unrestricted to prove the image sees each kind of write.",
    "one representative per statement kind; entry points called in-process (no HTTP/gRPC framing); SET / PREPARE / transactions / EXPLAIN without ANALYZE only need to leave the state unchanged",
    "DESIGN.md section 5 C11"),
+ "C12": (ENGINE_C, "exploration",
+   "bounded-exhaustive enumeration of predicate trees x chunks (value multisets with true / missing / mistyped statistics) against a direct three-valued evaluation of the predicate on every row; the same through the real SQL -> predicate extraction -> catalog selection path and end to end through QueryNode::query against DataFusion over a MemTable of all rows",
+   "fn layer: every ColumnPredicate tree of depth <=1 over the full atom alphabet (6 comparison operators x every domain value, NULL, comparable cross-type and incomparable literals; IN/NOT IN with every list of <=2 literals incl. empty; BETWEEN with every ordered and unordered pair) and every depth-2 tree over an end-point centred alphabet x every chunk = multiset of <=3 values over a 4 (thorough 5)-value domain + NULL for int/float/string columns x statistics {true, missing, type-swapped, junk, alternative numeric JSON type, min only, max only}, plus two-column chunks x trees mixing both columns (~1.5e8 cases quick): pruned => no row of the chunk can satisfy the predicate. sql layer: 4.7 k statements (both operand orders, BETWEEN/NOT BETWEEN, IN/NOT IN, NOT, IS NULL, arithmetic, casts, AND/OR compounds, aliasing projections, HAVING, CTE, join, union) x 2 catalogs carrying statistics over 12 chunks: no dropped chunk holds a matching row, the extracted predicate excludes no matching row, and QueryNode::query equals the same SQL over all rows; the fn layer's reference evaluator is validated row by row against DataFusion on the exactly convertible forms.",
+   "statistics are attached to catalog.json by the harness (the ingest path writes none); a literal incomparable with the column's type may make a comparison come out either way ('may match'), except where the harness itself falsified the statistics' JSON type; DataFusion is evaluator and reference in the sql layer; frozen clock, no timestamp predicate (a timestamp conjunct disables column-predicate extraction)",
+   "DESIGN.md section 5 C12"),
  "C13": (ENGINE_A, "model_checking",
    "stateless model checking of the real code: exhaustive DFS over all interleavings of 2-3 nodes' shard-metadata updates/creations at object-store-request granularity with state caching; plus exhaustive update histories of the router cache",
    "Every interleaving of 1-2 update_shard_metadata calls per node (expected generation equal, stale, ahead; shard absent or at generation 2) on the object-store client (request granularity) and the in-memory client (call granularity); oracle: one winner per base generation, generations form the chain g0+1.., every version ever written carries the next generation, stored content belongs to the last winner; ShardRouter: all update sequences up to depth 5/7 never lower the cached generation.",
@@ -130,7 +135,7 @@ def main():
             na.append({"property_id": pid, "reason": NOT_YET.get(pid, "check not built yet in this round (planned: see DESIGN.md section 5); not a claim that model checking cannot apply")})
     kinds = {
       ENGINE_A: ("harness/src/engine/sched.rs", "stateless DFS with replay over the real async code: gates at every object-store request / catalog call / hook pause point on a paused single-threaded tokio runtime; deviation bounds (preemptions, faults, crashes, clock jumps); state caching where the fingerprint is complete; interposed clocks and entropy"),
-      ENGINE_B: ("harness/src/engine/bfs.rs", "breadth-first search over operation histories; every transition calls the real code on freshly built objects; invariant on every state"),
+      ENGINE_B: ("harness/src/props", "breadth-first search over operation histories; every transition calls the real code on freshly built objects; invariant on every state"),
       ENGINE_C: ("harness/src/props", "complete enumeration of a finite input space against a boring reference"),
       ENGINE_F: ("harness/src/engine/sched.rs", "every request index x {fail-before, fail-after, crash} (nested) of a sequential procedure, then the documented recovery"),
     }
